@@ -12,7 +12,9 @@ from harness.common import qlit, zlit, optlit
 from harness import exact as X
 
 VFILES = ['Lib/PySlice.v', 'Model/FastLen.v', 'Gen/GenUtils.v', 'Model/Ledger.v', 'Model/Snippet.v', 'Proofs/LedgerProofs.v',
-          'Proofs/SnippetProofs.v', 'Props/C12.v']
+          'Proofs/SnippetProofs.v', 'Lib/Dft.v', 'Lib/DftC.v', 'Model/Shift.v', 'Proofs/ShiftProofs.v', 'Proofs/ShiftC.v', 'Proofs/SnippetC.v', 'Props/C12.v']
+
+from harness.c03 import REAL_AX
 
 HEADER = '''From Coq Require Import ZArith QArith List. Import ListNotations. Open Scope Z_scope.
 From PB Require Import Model.Ledger Model.Snippet.
@@ -54,7 +56,7 @@ def run(ctx):
     built = ctx.build(['Props/C12.vo'])
     ctx.count_obligations(VFILES)
     if built:
-        ctx.assumptions_of('Props/C12.v', allowed=set())
+        ctx.assumptions_of('Props/C12.v', allowed=REAL_AX)      # the value theorem is over R / Coquelicot C
 
     items, meta = [], []
     N = 400 if ctx.tier == 'quick' else 6000
